@@ -1,12 +1,15 @@
 package hx
 
 import (
+	"crypto/sha256"
+	"encoding/hex"
 	"encoding/json"
 	"fmt"
 	"math/rand"
 	"sync"
 	"time"
 
+	"github.com/nautilus/gateway"
 	"github.com/nautilus/graphql"
 )
 
@@ -25,7 +28,7 @@ func (c16) Cases(tier string) int {
 }
 
 func (c16) Rule() string {
-	return "batched POSTs of 1-5 operations (multi-step queries, list fan-out, a mutation, an operation that errs at execution, an operation without query, duplicates) named Op0..Opk; service calls are gated per operation name and a controller lets the operations complete in a forced order: every permutation for batches of up to 3 (quick) / 4 (thorough) operations, random permutations above; the i-th element of the response list must equal the response of operation i POSTed alone; built with -race; non-trivial = at least 2 operations that contact services; distinct = distinct (batch, completion order)"
+	return "batched POSTs of 1-5 operations (multi-step queries, list fan-out, a mutation, an operation that errs at execution, an operation without query, duplicates) named Op0..Opk, half of them against a gateway with the automatic query-plan cache where operations may carry a persisted-query hash next to their text; service calls are gated per operation name and a controller lets the operations complete in a forced order: every permutation for batches of up to 3 (quick) / 4 (thorough) operations, random permutations above; the i-th element of the response list must equal the response of operation i POSTed alone; built with -race; non-trivial = at least 2 operations that contact services; distinct = distinct (batch, completion order)"
 }
 
 var batchQueries = []string{
@@ -100,6 +103,15 @@ func (c16) Run(c *Ctx, i int) CaseResult {
 	var ops []map[string]interface{}
 	var names []string
 	contacting := 0
+	persisted := 0
+	// half of the batches go to a gateway with the automatic query-plan cache; there an operation may carry a
+	// persisted-query hash together with its text (hash-only operations are left out: their answer depends on
+	// the cache's history, which a solitary request does not have)
+	var gwOpts []gateway.Option
+	cached := r.Intn(2) == 0
+	if cached {
+		gwOpts = append(gwOpts, gateway.WithAutomaticQueryPlanCache())
+	}
 	for j := 0; j < k; j++ {
 		name := fmt.Sprintf("Op%d", j)
 		op := map[string]interface{}{"operationName": name}
@@ -123,6 +135,11 @@ func (c16) Run(c *Ctx, i int) CaseResult {
 				op["query"] = "query " + name + " " + batchQueries[0]
 			}
 			contacting++
+		}
+		if q, ok := op["query"].(string); ok && cached && r.Intn(2) == 0 {
+			sum := sha256.Sum256([]byte(q))
+			op["extensions"] = map[string]interface{}{"persistedQuery": map[string]interface{}{"version": 1, "sha256Hash": hex.EncodeToString(sum[:])}}
+			persisted++
 		}
 		ops = append(ops, op)
 		names = append(names, name)
@@ -152,7 +169,7 @@ func (c16) Run(c *Ctx, i int) CaseResult {
 	// single answers
 	singles := make([]string, k)
 	for j, op := range ops {
-		f, err := NewFed(FixedFed(), store)
+		f, err := NewFed(FixedFed(), store, gwOpts...)
 		if err != nil {
 			res.Fails = append(res.Fails, Failure{Channel: "harness", Classifier: "harness-error", What: err.Error()})
 			return res
@@ -168,7 +185,7 @@ func (c16) Run(c *Ctx, i int) CaseResult {
 		singles[j] = Canon(v)
 	}
 	for _, ord := range orders {
-		f, err := NewFed(FixedFed(), store)
+		f, err := NewFed(FixedFed(), store, gwOpts...)
 		if err != nil {
 			res.Fails = append(res.Fails, Failure{Channel: "harness", Classifier: "harness-error", What: err.Error()})
 			return res
@@ -230,6 +247,9 @@ func (c16) Run(c *Ctx, i int) CaseResult {
 	res.Nontrivial = contacting >= 2
 	res.Counters = map[string]int{"operations": k, "orders": len(orders)}
 	res.Features = []string{fmt.Sprintf("batch-%d", k)}
+	if cached {
+		res.Features = append(res.Features, "plan-cache", fmt.Sprintf("persisted-%d", persisted))
+	}
 	if i%17 == 0 {
 		res.Sample = map[string]interface{}{"batch": ops, "orders": orders}
 	}
